@@ -35,9 +35,7 @@ broadcast use {num_bigint::of_int_bi, num_bigint::bi_of_int};
 //@ extract fn sha256tree from src/compiler/clvm.rs
 //@ canary swap_children @<hasher.update(&t1);>@ => @<hasher.update(&t2);>@
 //@ replace R13 @<NewStyleIntConversion::setting()>@ => @<verif_int_mode()>@
-//@ sig r
-    ensures r@ == tree_hash(tree_of(int_mode(), *s))
-    decreases *s
+//@ sigfile r contracts/sha256tree_modern.sig
 //@ before stmt @<hasher.finalize().to_vec()>@
             proof {
                 assert([2u8]@ =~= seq![2u8]);
